@@ -24,6 +24,21 @@ TA == <<
   << "repeat", "m", "(", "@", ")", "until", "a" >>,
   << "local", "function", "g", "(", "...", ")", "if", "a", "then", "return", "@", "end", "return", "@", ",", "...", "end" >>,
   << "t", ".", "k", "=", "a", "and", "@", "or", "@" >>,
+  \* declarations of several names of which some are unused / nil / without a value (rules that rebuild the declaration),
+  \* conditions with an `elseif true` between other branches, method definitions with several parameters, a string folded
+  \* from long pieces, two statements sharing a line after a statement that a rule deletes
+  << "local", "ua", ",", "ub", ",", "uc", "=", "m", "(", "@", ")", ",", "@" >>,
+  << "m", "(", "ua", ",", "uc", ")" >>,
+  << "local", "na", ",", "nb", "=", "nil", ",", "@" >>,
+  << "m", "(", "na", ",", "nb", ")" >>,
+  << "local", "da", ",", "db", "=", "@", ",", "nil" >>,
+  << "m", "(", "da", ",", "db", ")" >>,
+  << "if", "a", "then", "m", "(", "@", ")", "elseif", "true", "then", "m", "(", "@", ")", "else", "m", "(", "@", ")", "end" >>,
+  << "if", "false", "then", "m", "(", "@", ")", "elseif", "a", "then", "m", "(", "@", ")", "else", "m", "(", "@", ")", "end" >>,
+  << "function", "t", ":", "mg", "(", "pa", ",", "pb", ")", "return", "pa", ",", "pb", ",", "@", "end" >>,
+  << "m", "(", "'aaaaaaaaaaaaaaaaaaaaaaaaaaaaaaaaaaaaaaaaaaaaaaaaaaaaaaaaaaaaaaaaaa\\n'", "..", "'b'", ",", "@", ")" >>,
+  << "local", "dead", "=", "1", "m", "(", "@", ")" >>,
+  << "local", "dead2", "=", "2", "do", "end", "m", "(", "@", ")" >>,
   << "return", "a", ",", "g", "(", "@", ")", ",", "(", "t", ")", ".", "k" >> >>
 \* Luau template (redexes of the lowering, removal and injection rules and of the optional refactorings)
 TB == <<
@@ -46,12 +61,16 @@ TB == <<
   << "m", "(", "s", ":", "rep", "(", "@", ",", "@", ")", ",", "@", ")" >>,
   << "assert", "(", "@", ",", "@", ",", "m", "(", "@", ")", ")" >>,
   << "debug", ".", "profilebegin", "(", "m", "(", "@", ")", ",", "@", ")" >>,
+  << "local", "z", "=", "if", "x", "then", "@", "elseif", "true", "then", "@", "else", "@" >>,
+  << "local", "w", "=", "if", "false", "then", "@", "elseif", "x", "then", "@", "else", "@" >>,
+  << "local", "function", "hh", "(", "qa", ":", "number", ",", "qb", ":", "string", ")", ":", "(", "number", ",", "string", ")", "return", "qa", ",", "qb", ",", "@", "end" >>,
   << "return", "y", ",", "s", ",", "h", "(", "@", ")" >> >>
 Templates == << TA, TB >>
 
 \* gap kinds and the number of line feeds in each
-GapKinds == << " ", "\n", "\n\n", " --c\n", " --[[c\nd]] ", "\n\t" >>
-GapNl    == << 0,   1,    2,      1,         1,              1 >>
+\* (new kinds are appended: recorded replay files refer to the first six by index)
+GapKinds == << " ", "\n", "\n\n", " --c\n", " --[[c\nd]] ", "\n\t", " --[a[ odd\n", "\n--[[ a\nb\nc ]]\n-- d\n" >>
+GapNl    == << 0,   1,    2,      1,         1,              1,      1,              5 >>
 
 RECURSIVE IntStr(_)
 Digit(d) == SubSeq("0123456789", d + 1, d + 1)
@@ -77,6 +96,12 @@ Render(toks, starts, choice, i, line, acc) ==
        LET ln == line + nl IN
        LET tok == IF toks[i] = "@" THEN "'L" \o IntStr(ln) \o "s" \o IntStr(i) \o "'" ELSE toks[i] IN
        Render(toks, starts, choice, i + 1, ln, acc \o gap \o tok)
+\* the statement of the template that contains token i, named by its first three tokens (triage of recorded findings)
+RECURSIVE StmtOfTok(_, _, _)
+StmtOfTok(stmts, k, i) == IF k > Len(stmts) THEN 0 ELSE IF i <= Len(stmts[k]) THEN k ELSE StmtOfTok(stmts, k + 1, i - Len(stmts[k]))
+StmtTag(tp, i) ==
+  LET k == IF i = 0 THEN 0 ELSE StmtOfTok(Templates[tp], 1, i) IN
+  IF k = 0 THEN "" ELSE LET st == Templates[tp][k] IN st[1] \o (IF Len(st) >= 2 THEN " " \o st[2] ELSE "") \o (IF Len(st) >= 3 THEN " " \o st[3] ELSE "")
 Text(tp, choice) == LET s == Templates[tp] IN Render(Flat(s, 1), Starts(s, 1), choice, 1, 1, "")
 NTokens(tp) == Len(Flat(Templates[tp], 1))
 =============================================================================
